@@ -101,6 +101,7 @@ iwrc iwstw_shutdown(struct iwstw * *stwp, bool wait_for_all) {
   }
   pthread_t st = pthread_self();
   if (stw->thr == pthread_self()) {
+    pthread_mutex_unlock(&stw->mtx);
     iwlog_error("iwstw | Thread iwstw_shutdown() from self thread: %lu", (unsigned long) st);
     return IW_ERROR_ASSERTION;
   }
